@@ -7,6 +7,7 @@ k (secret key), s (signature), o (nonce), l (balance), p (revocation pair)
 -/
 import ZkVerif.Exec.Proto
 import ZkVerif.Model.Codec
+import ZkVerif.Model.Base64
 import Std.Data.HashMap
 
 namespace ZkVerif.CodecOps
@@ -117,6 +118,18 @@ def dispatchSt (st : DState) (args : List String) : DState × Option String :=
     | some (t, []), some bs =>
       (st, some (showOut (decode (mkEnv st (legacy == "1") (rev == "1") false) t bs 0) bs.length))
     | _, _ => (st, none)
+  -- the text form of a channel id (argument: hex of the text's bytes, `-` for the empty text)
+  | ["b64-id-of-text", arg] =>
+    match parseBytes arg with
+    | some bs =>
+      (st, some (match Base64.idOfText (bs.map (·.toNat)) with
+        | some id => join [tV "some", tV (hexOf (id.map (fun n => n.toUInt8)))]
+        | none => tV "none"))
+    | none => (st, none)
+  | ["b64-text-of-id", arg] =>
+    match parseBytes arg with
+    | some bs => (st, some (tV (hexOf ((Base64.textOfId (bs.map (·.toNat))).map (fun n => n.toUInt8)))))
+    | none => (st, none)
   | _ => (st, none)
 
 end ZkVerif.CodecOps
